@@ -4,8 +4,9 @@ package broker
 
 func VsymC14_Rebalance() {
 	k := vsym_Param("k")
-	w := vsymNewWorld("C14", 2, 1)
+	w := vsymNewWorld("C14", vsym_Param("parts"), 1)
 	w.timed = true
+	w.takeovers = vsym_Param("takeovers") == 1
 	w.fixedSubs = true
 	w.sessionMs = 30000 // longer than the 10 s rebalance timeout: laggers are dropped before sessions lapse
 	for i := 0; i < k; i++ {
